@@ -202,7 +202,7 @@ def queries(tier):
         cap = 1
     else:
         n = 3
-        ps = [I('fmt', 0, 2), B('same'), B('pr')] + picks + [I('ida', 0, 2), B('v0'), B('c0'), B('v1'), B('ra0'), B('ra1'), B('ep'),
+        ps = [I('fmt', 0, 2), B('same'), B('pr')] + picks + [I('ida', 0, 2), B('v0'), B('c0'), B('v1'), B('ra0'), B('ra1'),
                                                                B('e01'), B('e12')]
         pre = [nondef + ' >= 4']
         cube = {'n': n, 'edges': ['e20', 'e11']}
